@@ -291,6 +291,10 @@ func pConfig(tag string) config.Pipeline {
 	v := verifConcrete(verifChoice(tag+".variant", 2))
 	cfg := config.Pipeline{ID: "pl", Status: config.StatusStopped, Name: "name" + strconv.Itoa(v), Description: "d" + strconv.Itoa(v)}
 	c1 := config.Connector{ID: "c1", Type: config.TypeSource, Plugin: "builtin:gen", Name: "c1", Settings: map[string]string{"k": "v" + strconv.Itoa(v)}}
+	if verifParam("ckFixed", 0) == 1 {
+		// the connector does not change with the variant: diffs can be processor-only / name-only
+		c1.Settings["k"] = "v0"
+	}
 	switch verifConcrete(verifChoice(tag+".c1procs", verifParam("procShapes", 4))) {
 	case 1:
 		c1.Processors = []config.Processor{pProc("a", v)}
